@@ -115,13 +115,23 @@ def law_stateless(chk, lp, rule, file):
         again = lp.run(k[0], k[1])
         if again != first[k]:
             bad = bad or (k[0], first[k], again)
+    # ... and each alone in a *fresh* copy of the lexer module: a pool that
+    # keeps whatever it saw first is saturated by now and repeats itself
+    # faithfully in the same process
+    from .pe import Interp  # noqa: PLC0415
+    for k in keys:
+        it2 = Interp(lp.repo)
+        tok2 = it2.module("vyxal.lexer").get("tokenise")
+        again = lp.run_with(it2, tok2, k[0], k[1])
+        if again != first[k]:
+            bad = bad or (k[0], first[k], again)
     chk.ob(rule, "tokenise run twice", bad is None,
            (f"{bad[0]!r} was lexed as {bad[1]} the first time and as {bad[2]} "
             "after other texts had been lexed: the lexer keeps state between "
             "calls") if bad else "", file,
            witness=repr(bad[0]) if bad else None,
            sample={"probes repeated": len(keys)})
-    return len(keys)
+    return bad is None
 
 
 def law_total(chk, lp, rule, file):
